@@ -259,6 +259,10 @@ func (d *Decoder) Write(p []byte) (n int, err error) {
 	}
 
 	for len(d.buf) > 0 {
+		// RFC 7541 section 4.2 allows up to two dynamic table size updates
+		// at the beginning of a header block (the smallest size in the
+		// interval, then the final one); our own Encoder emits them
+		isSizeUpdate := d.buf[0]&224 == 32
 		err = d.parseHeaderFieldRepr()
 		if err == errNeedMore {
 			// Extra paranoia, making sure saveBuf won't
@@ -273,7 +277,9 @@ func (d *Decoder) Write(p []byte) (n int, err error) {
 			d.saveBuf.Write(d.buf)
 			return len(p), nil
 		}
-		d.firstField = false
+		if !isSizeUpdate || err != nil {
+			d.firstField = false
+		}
 		if err != nil {
 			break
 		}
